@@ -577,13 +577,16 @@ def fold_axes(f, A, axes, init=None):
     return out
 
 
+_GLOBAL_COUNTER = itertools.count()
+
+
 class Ctx:
     def __init__(self, max_unroll=64, havoc_loops=False):
         self.havoc_loops = havoc_loops
         self.assumptions = []   # constraints from stubs (contracts)
         self.unwind = []        # unwinding obligations: list of z3 Bool that must be unsat w/ assumptions
         self.oob = []           # (descr, cond) optional in-bounds obligations
-        self.counter = itertools.count()
+        self.counter = _GLOBAL_COUNTER   # names are unique per process: value sets are keyed by term identity
         self.memo = {}
         self.max_unroll = max_unroll
         self.stats = {"eqns": 0, "sym_eqns": 0, "havoc": []}
@@ -608,8 +611,9 @@ class Ctx:
         for i in range(of.size):
             of[i] = self.fresh(f"{name}_{i}", dt)
             if lo is not None:
-                self.assumptions.append(to_z3(s_cmp("ge", of[i], lo, dt), np.bool_))
-                self.assumptions.append(to_z3(s_cmp("le", of[i], hi, dt), np.bool_))
+                # raw comparison: must not be folded by a value set
+                self.assumptions.append(to_z3(_s_cmp_raw("ge", of[i], lo, dt), np.bool_))
+                self.assumptions.append(to_z3(_s_cmp_raw("le", of[i], hi, dt), np.bool_))
                 vs_set(of[i], list(range(lo, hi + 1)))
         return SV(out, dt)
 
